@@ -1,4 +1,6 @@
 import GoSSE.Proofs.MessageRoundTrip
+import GoSSE.Proofs.GenEquivWrite
+import GoSSE.Props.C02
 /-!
 # C15 — message text round trip and exact byte accounting
 
@@ -134,5 +136,30 @@ theorem unmarshal_marshal (ops : List BuildOp) (hv : ∀ op ∈ ops, BuildOp.Val
 example : Message.unmarshalText (build [.setID [49], .appendData [[97, 10, 98]], .appendComment [[99]], .setRetry 1999999]).marshalText =
     ({ id := { value := [49], set := true }, chunks := [⟨[97], false⟩, ⟨[98], false⟩, ⟨[99], true⟩], retry := 1000000 }, .nil) := by
   decide
+
+
+/-! ### The translated source text (regenerated from /repo on every run) -/
+
+/-- `Message.WriteTo` *as translated from message.go* — `writeID`, `writeType`, `writeRetry` with its 13-byte digit
+buffer, the chunk loop, `chunk.WriteTo`, `writeMessageField`, `writeString`, every `n += m; if err != nil { return }`
+— returns, for **every** writer (any state machine), message and starting state, exactly the count and the error of
+the model's `writeTo` and leaves the writer in the model's state; it panics exactly when the model does. The
+accounting theorem above (`writeTo_accounting`: count = bytes accepted, accepted bytes a prefix of the encoding, the
+first error returned) is therefore a statement about the source text. -/
+theorem translated_WriteTo_is_model {σ : Type} (fuel : Nat) (w : Writer σ String) (st : σ) (m : Message)
+    (hf : 13 < fuel) (hc : m.chunks.length < fuel) :
+    Gen.Message_WriteTo fuel (GenEquiv.toGenMsg m) (GenEquiv.toGenW w st) =
+      GenEquiv.okOrPanic w (m.writeTo w st) (GenEquiv.toGenMsg m) :=
+  GenEquiv.WriteTo_eq fuel w st m hf hc
+
+/-- … and for a `time.Duration` retry value it does not panic: the translated code returns normally -/
+theorem translated_WriteTo_returns {σ : Type} (fuel : Nat) (w : Writer σ String) (st : σ) (m : Message)
+    (hf : 13 < fuel) (hc : m.chunks.length < fuel) (hm : m.retry ≤ (maxInt64 : Int)) :
+    Gen.Message_WriteTo fuel (GenEquiv.toGenMsg m) (GenEquiv.toGenW w st) =
+      .ok (((m.writeTo w st).n : Int), (m.writeTo w st).err, GenEquiv.toGenMsg m, GenEquiv.toGenW w (m.writeTo w st).st) := by
+  rw [GenEquiv.WriteTo_eq fuel w st m hf hc]
+  unfold GenEquiv.okOrPanic GenEquiv.okOf
+  rw [GoSSE.Props.C02.writeTo_never_panics w st m hm]
+  rfl
 
 end GoSSE.Props.C15
